@@ -37,7 +37,7 @@ ASSUMPTIONS = [
     "the documented meaning of each constructor is transcribed in vf/tx.py:cls_sat from docs/types.md",
     "user class_check predicates are total and side-effect free",
 ]
-REPORT_COUNTERS = ["pairs_subclasscheck", "pairs_dispatch", "pairs_dispatch_two_parameters", "law_transitive", "law_issubclass",
+REPORT_COUNTERS = ["pairs_subclasscheck", "pairs_dispatch", "pairs_dispatch_two_parameters", "dispatch_retried_after_transient_hook_fault", "law_transitive", "law_issubclass",
                    "law_covariance", "deferred_before_import", "deferred_after_import", "late_registration_checked"]
 
 CLOSED_HEADS = {"U", "I", "S", "H"}  # meanings closed under subclassing (with class atoms)
@@ -182,6 +182,14 @@ def check_case(spec, res):
                 inst = C()
             res.ev()
             res.count("pairs_dispatch")
+            if ("CC" in hs or "Hook" in T.tname(tx)) and (len(got_cache) % 3 == 0):
+                # history: the *first* lookup of this class is interrupted once by a failing user hook / predicate
+                # (a transient fault); the retry must then see the documented meaning, not a left-over
+                env.predlog.fault_at, env.predlog.fault_count = 1, 0
+                first = outcome(lambda: o(inst), vf)
+                env.predlog.fault_at = None
+                if first[0] == "exc" and first[1] == "HookFault":
+                    res.count("dispatch_retried_after_transient_hook_fault")
             out = outcome(lambda: o(inst), vf)
             ran_T = out[0] == "ran" and out[1] == (1,)
             ran_any = out[0] == "ran" and out[1] == (0,)
